@@ -35,6 +35,7 @@ pub mod multilinear_pc {
 //@typemap /Vec<EvaluationHyperCubeOnG2<E>>/ => Vec<Vec<G2Affine>>
 //@typemap /&impl MultilinearExtension<E::ScalarField>/ => &MLE
 //@typemap /<E::G1 as VariableBaseMSM>::/ => G1::
+//@struct file=poly-commit/src/multilinear_pc/data_structures.rs name=UniversalParams
 //@struct file=poly-commit/src/multilinear_pc/data_structures.rs name=VerifierKey
 //@struct file=poly-commit/src/multilinear_pc/data_structures.rs name=CommitterKey
 //@struct file=poly-commit/src/multilinear_pc/data_structures.rs name=Commitment
@@ -52,8 +53,29 @@ pub mod multilinear_pc {
         #[verifier::external_body] pub fn num_vars(&self) -> (r: usize) ensures r == self.num_vars { unimplemented!() }
         #[verifier::external_body] pub fn to_evaluations(&self) -> (r: Vec<Fr>) ensures r@ == self.evals@ { unimplemented!() }
     }
+    // `(&v[k..]).to_vec()`: a copy of the suffix starting at k (k > len: abort)
+    #[verifier::external_body] pub fn vec_suffix_g1(v: &Vec<Vec<G1Affine>>, k: usize) -> (r: Vec<Vec<G1Affine>>) ensures k <= v@.len(), r@ == v@.subrange(k as int, v@.len() as int) { unimplemented!() }
+    #[verifier::external_body] pub fn vec_suffix_g2(v: &Vec<Vec<G2Affine>>, k: usize) -> (r: Vec<Vec<G2Affine>>) ensures k <= v@.len(), r@ == v@.subrange(k as int, v@.len() as int) { unimplemented!() }
+    #[verifier::external_body] pub fn vec_suffix_mask(v: &Vec<G1Affine>, k: usize) -> (r: Vec<G1Affine>) ensures k <= v@.len(), r@ == v@.subrange(k as int, v@.len() as int) { unimplemented!() }
     pub struct MultilinearPC;
     impl MultilinearPC {
+//@fn id=multilinear_pc.trim file=poly-commit/src/multilinear_pc/mod.rs scope="impl<E: Pairing> MultilinearPC<E>" name=trim props=C09
+        pub fn trim(params: &UniversalParams, supported_num_vars: usize) -> (r: (CommitterKey, VerifierKey))
+        requires
+            params.powers_of_g@.len() == params.num_vars, params.powers_of_h@.len() == params.num_vars, params.g_mask@.len() == params.num_vars,     // shape of setup's output
+        ensures
+            // (more variables than the parameters support: abort)  the keys are the LAST supported_num_vars tables / masks, same generators
+            supported_num_vars <= params.num_vars,
+            r.0.nv == supported_num_vars && r.1.nv == supported_num_vars && r.0.g == params.g && r.0.h == params.h && r.1.g == params.g && r.1.h == params.h,   // name=multilinear_pc.trim.generators_and_size props=C09
+            r.0.powers_of_g@ == params.powers_of_g@.subrange(params.num_vars - supported_num_vars, params.num_vars as int)
+                && r.0.powers_of_h@ == params.powers_of_h@.subrange(params.num_vars - supported_num_vars, params.num_vars as int),   // name=multilinear_pc.trim.committer_key_is_the_suffix_of_the_tables props=C09
+            r.1.g_mask_random@ == params.g_mask@.subrange(params.num_vars - supported_num_vars, params.num_vars as int),   // name=multilinear_pc.trim.verifier_masks_are_the_matching_suffix props=C09
+//@body
+//@rw 1 /assert!\(supported_num_vars <= params\.num_vars\);/ => rassert!(supported_num_vars <= params.num_vars);
+//@rw 1 /\(&params\.powers_of_h\[(.*?)\.\.\]\)\.to_vec\(\)/ => vec_suffix_g2(&params.powers_of_h, \1)
+//@rw 1 /\(&params\.powers_of_g\[(.*?)\.\.\]\)\.to_vec\(\)/ => vec_suffix_g1(&params.powers_of_g, \1)
+//@rw 1 /\(&params\.g_mask\[(.*?)\.\.\]\)\.to_vec\(\)/ => vec_suffix_mask(&params.g_mask, \1)
+//@end
 //@fn id=multilinear_pc.commit file=poly-commit/src/multilinear_pc/mod.rs scope="impl<E: Pairing> MultilinearPC<E>" name=commit props=C08,C19
         pub fn commit(ck: &CommitterKey, polynomial: &MLE) -> (res: Commitment)
         requires
